@@ -607,3 +607,10 @@ impl<'c, 's> WriterInner<'c, 's> {
 			})
 	}
 }
+
+/// Verification harness mount point (only compiled under `cargo kani`; source lives outside this repository)
+#[cfg(kani)]
+#[allow(unused, missing_docs)]
+pub(crate) mod verif {
+	include!(concat!(env!("SAF_VERIF"), "/ocf_writer.rs"));
+}
